@@ -53,6 +53,7 @@ pub fn all() -> Vec<Regression> {
         Regression { name: "D34-rk23-xout-interpolant", property: "C07", what: "RK23 built with dense_output(false): the interpolant obtained through XOut must reproduce the step's end state (was all zeros)", f: d34 },
         Regression { name: "D35-sol-range-rounding", property: "C06", what: "sol(t) and sol_many must succeed at every reported time (RK23, lin3 on [0, 0.38688] and [0, 0.4461], rtol 1e-2: last time one ulp beyond the last segment)", f: d35 },
         Regression { name: "D36-radau-min-step-longer-than-interval", property: "C04", what: "Radau with min_step = 1e-3 on [0, 5e-4] (both directions) must return, not panic", f: d36 },
+        Regression { name: "D42-regular-step-ending-on-xend", property: "C04", what: "DOPRI5, DOP853 and RK4 on [-(2^30 - 5e-6), -(2^30 + 5e-6)] and its mirror image: Success, and as many accepted steps as intervals between the samples", f: d42 },
         Regression { name: "D41-initial-step-below-an-ulp-of-x0", property: "C01", what: "the decay and the oscillator in a time unit 2^40 times smaller, integrated from x0 = 2.2e12 / 3.3e12 down to 0.2 without first_step, must reach xend with RK23, DOPRI5 and RADAU at rtol 1e-3", f: d41 },
         Regression { name: "D40-landing-within-rounding-of-xend", property: "C05", what: "Radau and BDF with first_step = max_step = 0.1 on [3e5, 3e5 + 1] (either direction) must deliver all three requested times x0, x0 + 0.5, xend and end at xend itself", f: d40 },
         Regression { name: "D39-stiffness-test-extreme-scale", property: "C13", what: "DOPRI5 / DOP853 on a mildly stiff linear system scaled by 2^-600 and 2^600 must stop with the same status after the same number of steps as the unscaled run", f: d39 },
@@ -600,6 +601,27 @@ fn d28() -> Result<(), String> {
     for w in s.t.windows(2) {
         if !(w[1] > w[0]) {
             return Err(format!("t not strictly increasing: {:e} then {:e}", w[0], w[1]));
+        }
+    }
+    Ok(())
+}
+
+fn d42() -> Result<(), String> {
+    let p0 = base(Base::Decay(-1.0));
+    let o = 1073741824.0 - 5e-6;
+    for m in [Method::DOPRI5, Method::DOP853, Method::RK4] {
+        for dirn in [1.0, -1.0] {
+            let p = if dirn < 0.0 { crate::problems::reflect(&p0) } else { p0.clone() };
+            let (x0, xend) = (dirn * o, dirn * o + dirn * 1e-5);
+            let mut c = Cfg::new(m, x0, xend, &p.y0).tol(1e-4, 1e-6);
+            if m == Method::RK4 {
+                c.first_step = Some(dirn * 1e-5);
+            }
+            let r = run(&p, &c);
+            let s = sol_of(&r)?;
+            if s.status != Status::Success || s.naccpt + 1 != s.t.len() {
+                return Err(format!("{} on [{:?}, {:?}]: {:?}, {} accepted steps, samples {:?}", mname(m), x0, xend, s.status, s.naccpt, s.t));
+            }
         }
     }
     Ok(())
